@@ -15,7 +15,10 @@
 (***************************************************************************)
 EXTENDS Integers, Sequences, FiniteSets, TLC
 
-CONSTANTS Procs, Prog, Builtins      \* Prog: [Procs -> Seq(op)], Builtins: [name -> decoration id]
+CONSTANTS Procs, Prog, Builtins,     \* Prog: [Procs -> Seq(op)], Builtins: [name -> decoration id]
+          Stamp                      \* TRUE: calls and returns read the clock (what an outside observer sees);
+                                     \* FALSE: no clock (a much smaller state space: used to enumerate the
+                                     \* linearization orders of the larger program sets)
 
 VARIABLES reg,      \* name -> decoration id
           lock,     \* [writer |-> 0 or the registering process, readers |-> set of processes reading]
@@ -46,12 +49,18 @@ Init == /\ reg = Builtins /\ lock = [writer |-> 0, readers |-> {}]
 
 CurOp(p) == Prog[p][ip[p]]
 
-Lock(p) == /\ pc[p] = "idle" /\ ip[p] <= Len(Prog[p])
+\* the call begins (this is all an observer outside sees of it until it returns)
+Call(p) == /\ pc[p] = "idle" /\ ip[p] <= Len(Prog[p])
+           /\ pc' = [pc EXCEPT ![p] = "called"]
+           /\ IF Stamp THEN clk' = clk + 1 /\ iv' = [iv EXCEPT ![p] = Append(@, [s |-> clk + 1, e |-> 0])]
+              ELSE UNCHANGED <<clk, iv>>
+           /\ UNCHANGED <<reg, lock, ip, results, order>>
+
+Lock(p) == /\ pc[p] = "called"
            /\ IF IsWrite(CurOp(p)) THEN Free /\ lock' = [lock EXCEPT !.writer = p]
               ELSE lock.writer = 0 /\ lock' = [lock EXCEPT !.readers = @ \cup {p}]
            /\ pc' = [pc EXCEPT ![p] = "locked"]
-           /\ clk' = clk + 1 /\ iv' = [iv EXCEPT ![p] = Append(@, [s |-> clk + 1, e |-> 0])]
-           /\ UNCHANGED <<reg, ip, results, order>>
+           /\ UNCHANGED <<reg, ip, results, order, clk, iv>>
 
 Body(p) == /\ pc[p] = "locked" /\ Holds(p)
            /\ LET o == CurOp(p) IN
@@ -68,11 +77,17 @@ Body(p) == /\ pc[p] = "locked" /\ Holds(p)
 
 Unlock(p) == /\ pc[p] = "done-body" /\ Holds(p)
              /\ lock' = IF lock.writer = p THEN [lock EXCEPT !.writer = 0] ELSE [lock EXCEPT !.readers = @ \ {p}]
-             /\ pc' = [pc EXCEPT ![p] = "idle"] /\ ip' = [ip EXCEPT ![p] = @ + 1]
-             /\ clk' = clk + 1 /\ iv' = [iv EXCEPT ![p][ip[p]].e = clk + 1]
-             /\ UNCHANGED <<reg, results, order>>
+             /\ pc' = [pc EXCEPT ![p] = "unlocked"]
+             /\ UNCHANGED <<reg, ip, results, order, clk, iv>>
 
-Next == \E p \in Procs : Lock(p) \/ Body(p) \/ Unlock(p)
+\* the call returns
+Return(p) == /\ pc[p] = "unlocked"
+             /\ pc' = [pc EXCEPT ![p] = "idle"] /\ ip' = [ip EXCEPT ![p] = @ + 1]
+             /\ IF Stamp THEN clk' = clk + 1 /\ iv' = [iv EXCEPT ![p][ip[p]].e = clk + 1]
+                ELSE UNCHANGED <<clk, iv>>
+             /\ UNCHANGED <<reg, lock, results, order>>
+
+Next == \E p \in Procs : Call(p) \/ Lock(p) \/ Body(p) \/ Unlock(p) \/ Return(p)
 Spec == Init /\ [][Next]_vars
 
 AllDone == \A p \in Procs : ip[p] > Len(Prog[p])
@@ -81,7 +96,7 @@ AllDone == \A p \in Procs : ip[p] > Len(Prog[p])
 (* C17 on the model *)
 
 \* a registration in progress excludes every other operation; readers may overlap
-InCS == {p \in Procs : pc[p] # "idle"}
+InCS == {p \in Procs : pc[p] \in {"locked", "done-body"}}
 MutualExclusion ==
   /\ \A p \in InCS : Holds(p)
   /\ \A p \in InCS : IsWrite(CurOp(p)) => InCS = {p}
@@ -128,13 +143,14 @@ ListingComplete ==
 
 -----------------------------------------------------------------------------
 (* What an observer OUTSIDE the lock can tell.  It sees only when each call  *)
-(* began and ended (here: the narrowest such interval, lock to unlock; a     *)
-(* call that waits for the lock begins earlier, which only weakens what      *)
-(* follows).  A precedes B iff A ended before B began.  The lock discipline  *)
+(* began and ended (the Call and Return steps; a call may wait for the lock   *)
+(* in between, so intervals of different calls overlap although their        *)
+(* critical sections do not).  A precedes B iff A ended before B began.      *)
+(* The lock discipline                                                       *)
 (* above implies the "regular register" reading of C17 that                  *)
 (* RegistryTrace.tla demands of the real registry's call/return log:         *)
 
-Ops == {<<p, i>> : p \in Procs, i \in 1..2} \cap {<<p, i>> \in Procs \X (1..10) : i <= Len(iv[p])}   \* begun
+Ops == UNION {{<<p, i>> : i \in 1..Len(iv[p])} : p \in Procs}   \* the operations begun so far
 OpOf(x) == Prog[x[1]][x[2]]
 Iv(x) == iv[x[1]][x[2]]
 Completed(x) == Iv(x).e # 0
@@ -161,5 +177,16 @@ ListingRegular ==
         may == DOMAIN Builtins \cup {OpOf(w).name : w \in {v \in Ops : OpOf(v).op = "register" /\ Iv(v).s < Iv(x).e}}
     IN must \subseteq results[x[1]][x[2]] /\ results[x[1]][x[2]] \subseteq may
 
-Regular == LookupRegular /\ ListingRegular
+\* "the latest once registrations have finished": two completed lookups of a name, neither overlapping any
+\* registration of that name and with no registration of it between them, agree (this is what fixes WHICH of two
+\* overlapping last registrations is the latest)
+Overlaps(x, y) == ~Before(x, y) /\ ~Before(y, x)
+QuiescentStable ==
+  \A x, y \in Ops :
+    (/\ OpOf(x).op = "named" /\ OpOf(y).op = "named" /\ OpOf(x).name = OpOf(y).name
+     /\ Completed(x) /\ Completed(y) /\ Before(x, y)
+     /\ \A w \in Writes(OpOf(x).name) : Before(w, x))
+    => results[x[1]][x[2]] = results[y[1]][y[2]]
+
+Regular == LookupRegular /\ ListingRegular /\ QuiescentStable
 =============================================================================
